@@ -207,6 +207,9 @@ def main():
     payload = _boot.read_payload()
     out = []
     for k, case in enumerate(payload["cases"]):
+        # keep the payload and the results collected so far out of the collector's way: every
+        # "drop" runs a full collection, which must not rescan them
+        gc.freeze()
         out.append(run_case(k, case))
     _boot.write_result({"obs": out})
 
